@@ -1,15 +1,15 @@
 CONSTANTS
   Names = {"a", "b"}
-  Conts = {"c1", "c2"}
+  Conts = {"c2", "empty"}
   Limits = {3}
   MaxReq = 2
   MaxChg = 1
   MaxStore = 2
-  KindSet = {"exact", "corrupt"}
-  ROs = {FALSE, TRUE}
-  ExtNames = {"a"}
+  KindSet = {"exact", "absent"}
+  ROs = {FALSE}
+  ExtNames = {"a", "b"}
   MaxFiles = {2, 1000000}
-  WhatIf = "no_reverify"
+  WhatIf = "none"
 SPECIFICATION Spec
 INVARIANT NoViolation
 CHECK_DEADLOCK FALSE
